@@ -125,13 +125,18 @@ def check_property(pid, tier="quick", seed=0):
     # ---- functions that left the modelled subset (or lost their loop invariant): bounded search on
     # the same contract stands in; a failing input is a violation, otherwise the property is undecided
     incomplete = [r for r in results if r.get("incomplete")]
-    pending = [{"qualname": r["qualname"], "unit": r["unit"], "why": "function outside the modelled subset: " + str(r["unsupported"] or r.get("incomplete"))}
-               for r in unsupported + incomplete]
-    seen_units = set()
+    pending = []
+    seen_fns = set()  # one bounded search per function, however many of its instances are affected
+    for r in unsupported + incomplete:
+        fn = r["qualname"] or r["unit"]
+        if fn not in seen_fns:
+            seen_fns.add(fn)
+            pending.append({"qualname": r["qualname"], "unit": r["unit"], "why": "function outside the modelled subset: " + str(r["unsupported"] or r.get("incomplete"))})
     for o in unknown:
-        if o["unit"] not in seen_units:
-            seen_units.add(o["unit"])
-            pending.append({"qualname": o["unit"].split("[")[0], "unit": o["unit"], "why": f"obligation {o['name']} undecided by both solvers"})
+        fn = o["unit"].split("[")[0]
+        if fn not in seen_fns:
+            seen_fns.add(fn)
+            pending.append({"qualname": fn, "unit": o["unit"], "why": f"obligation {o['name']} undecided by both solvers"})
     for r in pending:
         if violations or not hasattr(mod, "replay"):
             break
